@@ -51,14 +51,22 @@ def load_known():
 
 
 def setup():
+    """Build everything once.  The driver is essential; a proof module that does not build is reported by the check of
+    the property it belongs to (phase A), it must not keep the other properties from being checked."""
     import tables
     tables.regenerate()
-    ok, log = leanio.lake_build()
-    sys.stdout.write(log[-4000:])
-    if not ok:
-        print('SETUP: lake build failed')
+    rc, log = leanio._run(['lake', 'build', 'driver'], 3000)
+    sys.stdout.write(log[-2000:])
+    if rc != 0:
+        print('SETUP: the driver does not build')
         return 2
-    print('SETUP: ok')
+    try:
+        rc, log = leanio._run(['lake', 'build', 'PybtexModel'], 5400)
+    except ToolFailure as e:
+        print('SETUP: library build did not finish: %s (the checks build what they need)' % e)
+        return 0
+    sys.stdout.write(log[-3000:])
+    print('SETUP: ok' if rc == 0 else 'SETUP: some proof modules do not build: %s (reported by their own checks)' % leanio.failing_modules(log))
     return 0
 
 
@@ -147,6 +155,10 @@ def phase_a(mod, tier, result):
     problems = []
     changed = tables.regenerate()
     result['tables_changed'] = changed
+    for owner, gname, err in tables.FAILED:
+        # a table generator that cannot read /repo any more concerns the property that owns it (tablegen/cXX.py) or everybody (tables.py)
+        if owner in ('tables', '__main__') or owner.lower().endswith('.' + mod.ID.lower()) or mod.ID in getattr(mod, 'TABLE_OWNERS', ()):
+            problems.append('table generator %s.%s failed on the current tree: %s' % (owner, gname, err))
     hits = leanio.forbidden_scan()
     if hits:
         problems.append('forbidden construct in Lean sources: ' + '; '.join(hits[:5]))
